@@ -9,9 +9,9 @@ spec/misc/Mutate_Trace.tla  binding B: outcomes of seeded random byte strings ju
  Seeds = what the format modules of the other properties render (ObjFormat, PackedRefs, ReflogLine, PktLine, Url, RefspecParse,
  CQuote, CredCtx, CredCtxDec, Mailmap, DateFmt, RefName, Pathspec, ConfigFormat, Attr, Ignore - their *_Gen emitters are run
  through ctx.tlc_gen) + files made by the installed git (index with extensions, commit-graph, multi-pack-index, loose objects,
- refs, reflog, config, ref advertisements and fetch responses of `git upload-pack`).  The quick tier reads the seeds rendered
- by the format modules from spec/misc/Mutate_Corpus.ndjson (regenerate: `python3 driver/props/c06.py --regen`); the thorough tier
- renders them afresh.
+ refs, reflog, config, ref advertisements and fetch responses of `git upload-pack`).  The seeds rendered by the format modules
+ are read from spec/misc/Mutate_Corpus.ndjson (regenerate with `python3 driver/props/c06.py`, ~5 min; with VERIF_C06_RENDER=1 a
+ run renders them afresh with larger constants, ~8 min extra).
  The executor runs 31 entry points (the 26 anchors) under catch_unwind, a 10 s deadline and a 4 GiB address-space limit.
  Reference names: verdicts and the sanitiser contract are judged by ref/RefName_Trace on the same mutants.
 """
@@ -360,8 +360,9 @@ def refname_events(cases, outs):
 
 def run(ctx):
     binary = ctx.build("vh-c06")
-    per_ep = 3 if not ctx.thorough else 20
-    rendered = rendered_seeds(ctx, True, per_ep) if ctx.thorough else load_corpus()
+    per_ep = 3 if not ctx.thorough else 12
+    # VERIF_C06_RENDER=1: render the seeds afresh from the format modules instead of reading the corpus (adds ~8 min)
+    rendered = rendered_seeds(ctx, True, per_ep) if os.environ.get("VERIF_C06_RENDER") else load_corpus()
     made = git_seeds(ctx)
     seeds = {}
     for ep in EPS:
@@ -391,7 +392,7 @@ def run(ctx):
     ref_evs = refname_events(cases, outs)
 
     # ---- binding B: mutation chains applied by TLC + raw random byte strings, judged by TLC
-    nchain = 30 if not ctx.thorough else 2500
+    nchain = 30 if not ctx.thorough else 500
     chain_recs = []
     for ep in sorted(seeds):
         for _ in range(nchain // 10 if ep not in ("index", "commitgraph", "midx", "ewah", "pktline", "advert.v1", "fetch.v2") else nchain):
@@ -403,7 +404,7 @@ def run(ctx):
                 b"=", b"-", b"+", b"0", b"9", b"a", b"Z", b"\t", b"\r", b"%", b"<", b">", b"(", b")", b"!", b"0000", b"ffff", b"\xc3\xa9", b"\x80", b"refs/heads/", b"HEAD"]
     rnd = []
     for ep in sorted(seeds):
-        for _ in range(40 if not ctx.thorough else 1500):
+        for _ in range(40 if not ctx.thorough else 800):
             k = ctx.rng.randint(0, 12)
             s = b"".join(ctx.rng.choice(alphabet) for _ in range(k))
             if ctx.rng.random() < 0.4:
@@ -452,7 +453,7 @@ def run(ctx):
                         "at num_bits + 64) and capabilities",
                         "deadline 10 s per call, address space limited to 4 GiB (an allocation of an attacker-chosen size beyond that aborts = violation)",
                         "gix_date::parse takes &str: bytes are converted lossily first",
-                        "quick tier: seeds rendered by the format modules are read from spec/misc/Mutate_Corpus.ndjson (thorough: rendered afresh)"]
+                        "seeds rendered by the format modules are read from spec/misc/Mutate_Corpus.ndjson unless VERIF_C06_RENDER=1"]
 
 
 def replay(ctx, rec):
